@@ -577,6 +577,19 @@ impl<'a> World<'a> {
                 AckOrder::InOrder => cand[0],
                 AckOrder::Reversed => *cand.last().unwrap(),
                 AckOrder::Random => cand[self.ch.pick(cand.len() as u32) as usize],
+                AckOrder::PerQos => {
+                    let c = &self.conns[idx];
+                    let mut first_ack = true;
+                    let sub: Vec<usize> = cand
+                        .iter()
+                        .copied()
+                        .filter(|i| match c.owed[*i].kind {
+                            OwedKind::PubAck => std::mem::replace(&mut first_ack, false),
+                            _ => true,
+                        })
+                        .collect();
+                    sub[self.ch.pick(sub.len() as u32) as usize]
+                }
             }
         };
         let o = self.conns[idx].owed.remove(pick);
@@ -614,7 +627,8 @@ impl<'a> World<'a> {
                 }
             }
             OwedKind::PubRec => {
-                self.acks_in_order = false;
+                // QoS 2 flows do not touch the order in which the broker
+                // acknowledges QoS 1 publishes (the clause judges those only)
                 Pk::PubRec {
                     pkid: o.pkid,
                     reason: if reason == R_NOMATCH && self.ch.coin(1, 2) { R_OK } else { reason },
